@@ -11,6 +11,7 @@ RELATED = {  # checks run in addition to the property's own one
     "C13g": ["C15", "C16"], "C13h": ["C17"], "C05g": ["C14", "C03"], "C05h": ["C01", "C13", "C11"], "C06g": ["C03"], "C06h": ["C03", "C01"],
     "C03g": ["C05", "C06"], "C03h": ["C12"], "C17g": ["C12", "C16"], "C17h": ["C01"], "C01g": ["C13"], "C08h": ["C12"], "C10h": ["C11", "C16"],
     "C16g": ["C17", "C12"], "C16h": ["C17", "C13"], "C04g": ["C05"], "C04h": ["C11", "C05"], "C15h": ["C16"], "C12g": ["C17", "C16"], "C12h": ["C10"],
+    "C02g": ["C01", "C15"], "C02h": ["C12", "C05"], "C07g": ["C02"], "C11g": ["C03", "C05"], "C14g": ["C12", "C08"], "C14h": ["C01", "C03"],
 }
 def props_of(name):
     p = os.path.join(SEEDED, name, "props.txt")
